@@ -13,7 +13,7 @@ TRUSTED = [
     'fuel that is a function of the input length alone, for EVERY byte string; both models are tied by correspondence runs (C06 for the walk, '
     'here for LZSS: outcome and output of the extracted decoder vs decompress_code on valid and retargeted streams)',
     'what Coq cannot say (CPython wall clock / CPU / resident set) is MEASURED: harness/sandbox.py runs construction + full traversal of every '
-    'input in a forked worker under a wall-clock kill, RLIMIT_AS and CPU / RSS accounting; budgets cpu <= 3 s + 4 us*n, rss growth <= 200 MiB + 64*n',
+    'input in a forked worker under a wall-clock kill, RLIMIT_AS and CPU / RSS accounting; budgets cpu <= 3 s + 4 us*n (40 s + 4 us*n for the LZSS decoder, which may expand any input up to its 35 MiB cap), rss growth <= 200 MiB + 64*n',
     'input generators harness/fuzzgen.py: valid files from the independent builders with every listed offset / link / count / size / exponent '
     'field retargeted (singly, in pairs), and random byte strings',
 ]
